@@ -16,7 +16,7 @@ RULE = ('case = (aggregation-rules file from the documented pattern language wit
         'FORWARD_ALL and never otherwise; exhaustive short event sequences + seeded random streams; non-trivial = sequence with '
         '>=1 emission and >=1 late or duplicate datapoint; distinct = (rules, config, sequence)')
 EXHAUSTIVE = {'quick': True, 'thorough': True}
-EXHAUSTIVE_OVER = 'all event sequences up to length L (quick 5, thorough 6) over an 8-event alphabet for the fixed rule set'
+EXHAUSTIVE_OVER = 'all event sequences up to length L (quick 5, thorough 6) over a 9-event alphabet for the fixed rule set'
 ASSUMPTIONS = ['two rules never claim the same aggregate name (output templates get distinct literal heads)',
                'expiry is over-approximated in favour of the code: a buffer may be forgotten once more than (MAX-1)*frequency '
                'virtual seconds passed since its last emission, or once MAX+2 newer intervals of the series received data',
@@ -40,7 +40,7 @@ def configs(tier, seed):
   return cfgs
 
 
-FIXED_RULES = "sumA.<env>.total (10) = sum app.<env>.*.count\navgB.all (10) = avg app.*.web*.lat\nloop.<x>.sum (10) = sum loop.<x>.*\n"
+FIXED_RULES = "sumA.<env>.total (10) = sum app.<env>.*.count\navgB.all (10) = avg app.*.web*.lat\nloop.<x>.sum (10) = sum loop.<x>.*\nallloops.total (10) = sum loop.*.*\nroll2.total (10) = max self2.*.*\nself2.<x>.sum (10) = sum self2.<x>.*\n"
 
 
 def gen_rules(r):
@@ -256,7 +256,8 @@ def run_config(cfg, res):
   rules = load_rules(FIXED_RULES)
   A, B = 'app.prod.web1.count', 'app.prod.web2.count'
   alphabet = [('arrive', A, 0, 1.0), ('arrive', B, 0, 2.5), ('arrive', A, -10, 4.0), ('arrive', A, -25, 8.25), ('adv', 5), ('adv', 10), ('adv', 35),
-              ('arrive', 'loop.a.sum', 0, 3.0)]     # a datapoint named like the aggregate it feeds
+              ('arrive', 'loop.a.sum', 0, 3.0),     # a datapoint named like one of the two aggregates it feeds
+              ('arrive', 'self2.b.sum', 0, 1.5)]
   L = 5 if cfg['tier'] == 'quick' else 6
   for length in range(1, L + 1):
     for evs in itertools.product(alphabet, repeat=length):
